@@ -325,7 +325,10 @@ impl Mp4Track {
             return Err(Error::InvalidData("must have either stco or co64 boxes"));
         }
         if let Some(ref stco) = self.trak.mdia.minf.stbl.stco {
-            if let Some(offset) = stco.entries.get(chunk_id as usize - 1) {
+            if let Some(offset) = (chunk_id as usize)
+                .checked_sub(1)
+                .and_then(|i| stco.entries.get(i))
+            {
                 return Ok(*offset as u64);
             } else {
                 return Err(Error::EntryInStblNotFound(
@@ -335,7 +338,10 @@ impl Mp4Track {
                 ));
             }
         } else if let Some(ref co64) = self.trak.mdia.minf.stbl.co64 {
-            if let Some(offset) = co64.entries.get(chunk_id as usize - 1) {
+            if let Some(offset) = (chunk_id as usize)
+                .checked_sub(1)
+                .and_then(|i| co64.entries.get(i))
+            {
                 return Ok(*offset);
             } else {
                 return Err(Error::EntryInStblNotFound(
